@@ -223,7 +223,25 @@ def main(argv=None):
     functions = []
     assumptions = set()
     samples = []
+    xc_tot = {"contracts": 0, "samples": 0, "compared_equal": 0, "skipped_abstract": 0, "ambiguous": 0, "mismatches": 0, "not_applicable": 0}
+    canary = {"witnessed": 0, "unknown": 0}
     for rep in reports:
+        xc = rep.get("crosscheck")
+        if xc is not None:
+            if xc.get("error") and not xc.get("samples"):
+                xc_tot["not_applicable"] += 1
+            else:
+                xc_tot["contracts"] += 1
+                xc_tot["samples"] += xc.get("samples", 0)
+                xc_tot["compared_equal"] += xc.get("compared", 0)
+                xc_tot["skipped_abstract"] += xc.get("skipped_abstract", 0)
+                xc_tot["ambiguous"] += xc.get("ambiguous", 0)
+                xc_tot["mismatches"] += xc.get("n_mismatches", 0)
+        for ob in rep["obligations"]:
+            if ob.get("canary") is True:
+                canary["witnessed"] += 1
+            elif ob.get("canary") == "unknown":
+                canary["unknown"] += 1
         if rep.get("function"):
             functions.append(rep["function"])
         for fi in rep.get("inlined_info", []):
@@ -248,6 +266,10 @@ def main(argv=None):
                     samples.append({"obligation": ob["id"], "kind": ob["kind"], "status": "discharged", "backend": ob.get("backends"), "paths": ob.get("paths")})
             elif ob["status"] == "undecided":
                 undecided.append(ob["id"])
+            elif (rep.get("crosscheck") or {}).get("n_mismatches"):
+                # the engine's encoding of this function disagrees with CPython: nothing it
+                # refutes is believed (checker error, exit 3), never a violation
+                undecided.append(ob["id"] + " (engine disagrees with CPython on this function; refutation not trusted)")
             else:
                 path, witness, failing = do_replay(prop, ob, rep)
                 f = finding_for(findings, prop, ob["id"], witness)
@@ -325,6 +347,8 @@ def main(argv=None):
         "backends": backends,
         "solver_time_s": round(solver_time, 3),
         "bounded": bcov,
+        "cpython_crosscheck": {**xc_tot, "what": "path summaries (path condition -> result term / raised class) of every contract whose call takes scalar inputs and uses no callee summary, evaluated on sampled concrete inputs and compared with the real function under CPython; a mismatch is a checker error"},
+        "canary": {**canary, "what": "discharged obligations with a feasible path on which the claim is satisfiable (a discharged obligation with none is a checker error: vacuous)"},
         "not_covered": ncov,
         "known_findings": [f["what"] for _i, f in known],
         "samples": samples or [{"note": "no discharged obligation"}],
